@@ -311,7 +311,7 @@ func TestC18(t *testing.T) {
 		}
 		rt.Repeat(map[string]func(*rapid.T){
 			"create": func(rt *rapid.T) {
-				contents := rapid.SampledFrom([]string{`{}`, `{"msg":"hi"}`, `"text"`, `[1,2]`, `not json`, ``}).Draw(rt, "contents")
+				contents := rapid.SampledFrom([]string{`{}`, `{"msg":"hi"}`, `"text"`, `[1,2]`, `not json`, ``, `{"msg": "x", "n": [1, 2]}`, "{}\n", " {} ", "{\n  \"a\": 1\n}", `{"a":1,"a":2}`, `{"u":"\u00e9"}`, `1e2`, `{"k":"v"}  `}).Draw(rt, "contents")
 				var priv []byte
 				if rapid.Bool().Draw(rt, "private") {
 					priv = []byte{1, 2, 3}
